@@ -59,6 +59,52 @@ def pspec(rng, shape, *, pz="id", signed=False, cplx=False, mix=False, normalise
     return {"shape": shape, "inner": inner, "vals": vals, "pz": pz, "mix": mix, "cplx": cplx, "const": const}
 
 
+def zero_some(spec: dict, rng) -> dict:
+    """Sets whole rows (units) of some embedding / polynomial leaves to exactly zero: the unit's function is the
+    zero function, i.e. -inf in the log-space semirings."""
+    import copy
+    s = copy.deepcopy(spec)
+    for d in s["layers"]:
+        if d["t"] in ("emb", "poly") and d["w"]["pz"] == "id" and rng.random() < 0.4:
+            k, n = d["w"]["inner"]
+            r = rng.randrange(k)
+            z = [0, 0] if d["w"].get("cplx") else 0
+            for j in range(n):
+                d["w"]["vals"][r * n + j] = z
+    return s
+
+
+def nested_kron_spec(rng, cplx=False) -> dict:
+    """Two right-nested chains kron(l0, kron(l1, kron(l2, ...))) of one-unit embeddings over the same variables,
+    mixed by one sum layer; one leaf of the first chain is identically zero (a zero factor deep inside a product)."""
+    m = rng.choice([3, 3, 4])
+    vs = sorted(rng.sample(range(0, 12), m))
+    states = {v: rng.choice([2, 3]) for v in vs}
+    layers = []
+    tops = []
+    for chain in range(2):
+        leaves = []
+        for v in vs:
+            layers.append({"t": "emb", "v": v, "k": 1, "n": states[v],
+                           "w": dict(pspec(rng, [1, states[v]], signed=True, cplx=cplx), const=False)})
+            leaves.append(len(layers) - 1)
+        if chain == 0:
+            z = rng.randrange(1, m)
+            w = layers[leaves[z]]["w"]
+            w["vals"] = [[0, 0] if cplx else 0 for _ in w["vals"]]
+        cur = leaves[-1]
+        for l in reversed(leaves[:-1]):
+            layers.append({"t": "kron", "in": [l, cur], "k": 1})
+            cur = len(layers) - 1
+        tops.append(cur)
+    kout = rng.choice([1, 2])
+    layers.append({"t": "sum", "in": tops, "kin": 1, "kout": kout,
+                   "w": dict(pspec(rng, [kout, 2], signed=True, cplx=cplx), const=False)})
+    outs = [len(layers) - 1] + ([tops[0]] if kout == 1 else [])  # outputs of one circuit share their unit count
+    return {"layers": layers, "outputs": outs, "vars": vs,
+            "states": {str(v): n for v, n in states.items()}, "continuous": []}
+
+
 def build_param(ps: dict) -> P.Parameter:
     inner = tuple(ps["inner"])
     if ps.get("cplx"):
